@@ -316,6 +316,27 @@ theorem notifyDom_of {rank : TxId → Nat} {E : HEnv} {w : HW} (H : HInv rank E 
           exact onChain_mono_left _ _ _ (by simpa using h1)
         rw [R.cbfork x hx cbt hcbt hcb] at h2; cases h2
 
+/-- the run of a notification inside `HOK` describes BOTH branches: `BranchOK` of the disconnected, `NewOK` of the
+    connected one -/
+theorem trace_branches {rank : TxId → Nat} {E : HEnv} (w : HW) (H : HInvC rank E w)
+    (hbest : w.v.best.height + 1 = w.sp.chain.length) {sm s' : Store} {n : Nat} {bs : List Block}
+    (hd : DReachFrom (E.ctx w.node) w.v.best.height w.s sm n)
+    (hc : CReachL (E.ctx w.node) (readyWallets sm E.wallets) sm s' bs)
+    (c0 old : List Block) (hch : w.sp.chain = c0 ++ old) (hlen : old.length = n)
+    (hD : ∀ x ∈ worldsH E w (notifyEvs n bs), HOK rank E x.1 x.2) :
+    BranchOK E c0 old ∧ NewOK E c0 bs := by
+  have hD' := hD
+  unfold notifyEvs at hD'
+  rw [worldsH_append] at hD'
+  have hD1 : ∀ x ∈ worldsH E w (List.replicate n .disconnect), HOK rank E x.1 x.2 :=
+    fun x hx => hD' x (List.mem_append_left _ hx)
+  obtain ⟨e1, e2, H1⟩ := dreach_run hd w rfl rfl H.inv hbest hD1
+  have sp1 := dreach_run_sp hd w rfl rfl H.inv hbest hD1 c0 old hch hlen
+  have B := branch_of_run hd w rfl rfl H.inv hbest hD1 c0 old hch hlen
+  have N := newOK_of_run hc _ e2 e1 (by rw [e1]) H1 (fun x hx => hD' x (List.mem_append_right _ hx))
+  rw [sp1] at N
+  exact ⟨B, N⟩
+
 /-- **THE TRACE REFINES ONE MOVE, `NotifyDom` DERIVED**: `trace_refines` with the residue `NotifyRes` in place of `NotifyDom` -/
 theorem trace_refines_res {rank : TxId → Nat} {E : HEnv} (w : HW) (H : HInvC rank E w)
     (hbest : w.v.best.height + 1 = w.sp.chain.length) {sm s' : Store} {n : Nat} {bs : List Block}
@@ -328,16 +349,7 @@ theorem trace_refines_res {rank : TxId → Nat} {E : HEnv} (w : HW) (H : HInvC r
     Inv (E.ctx w.node) s' (c0 ++ bs) ∧
     PendRel rank s' (onChainMoved E.env (c0 ++ old) (c0 ++ bs) w.sp.pend) ∧
     CredRel E.env s' (onChainMoved E.env (c0 ++ old) (c0 ++ bs) w.sp.pend) := by
-  have hD' := hD
-  unfold notifyEvs at hD'
-  rw [worldsH_append] at hD'
-  have hD1 : ∀ x ∈ worldsH E w (List.replicate n .disconnect), HOK rank E x.1 x.2 :=
-    fun x hx => hD' x (List.mem_append_left _ hx)
-  obtain ⟨e1, e2, H1⟩ := dreach_run hd w rfl rfl H.inv hbest hD1
-  have sp1 := dreach_run_sp hd w rfl rfl H.inv hbest hD1 c0 old hch hlen
-  have B := branch_of_run hd w rfl rfl H.inv hbest hD1 c0 old hch hlen
-  have N := newOK_of_run hc _ e2 e1 (by rw [e1]) H1 (fun x hx => hD' x (List.mem_append_right _ hx))
-  rw [sp1] at N
+  obtain ⟨B, N⟩ := trace_branches w H hbest hd hc c0 old hch hlen hD
   have hN := notifyDom_of H.inv c0 old bs hch B N hR
   exact ⟨hN, trace_refines w H hbest hd hc c0 old hch hlen hD hN⟩
 
